@@ -1,3 +1,4 @@
+\* pruning part as coded: exported graph (the harness generates this file with the switches matching the implementation fingerprint)
 SPECIFICATION Spec
 CONSTANTS
   MaxH = 5
